@@ -379,6 +379,17 @@ class ClientDriver(ReorgDriver):
     def op_c_disconnect(self, op):
         self._when(op, lambda: self.client(op['c']).disconnect())
 
+    def op_c_disconnect_all(self, op):
+        """Every client goes away - also the fresh / admin ones of earlier phases: the server has no session."""
+        def go():
+            for c in list(self.cl) + list(self.clients.values()):
+                if c is self.clients.get('admin') and getattr(self, 'admin_pending', 0):
+                    continue        # an admin request is still in flight: the operator stays
+                if c.connected:
+                    c.disconnect()
+            self.probe('c10.nobody_connected')
+        self._when(op, go)
+
     def op_c_hsub(self, op):
         def go():
             c = self.client(op['c'])
@@ -1128,6 +1139,30 @@ class MempoolFamily(SubsFamily):
                 plan.append(dict(op='on_rpc', method='getblockcount', skip=rng.randrange(3), then=[
                     dict(op='mine', n=1, ntx=[rng.randint(0, 3)], seed=rng.getrandbits(32),
                          confirm=rng.choice([0.0, 0.5, 1.0]))]))
+            if races and rng.random() < 0.15:
+                # motif: more new transactions than fit in one fetch batch (200), the batches answered after
+                # different, long delays; while they are under way a block is found (the block processor's poll
+                # moves the cached daemon height) and transactions of the batch still outstanding are evicted
+                a = rng.choice([3.0, 7.0, 12.0])
+                b = a + rng.choice([4.0, 9.0, 20.0])
+                plan.append(dict(op='slow', method='getrawtransaction', delay=a))
+                plan.append(dict(op='slow', method='getrawtransaction', delay=b))
+                plan.append(dict(op='mp_add', n=rng.choice([210, 260, 330]), chain=rng.choice([0.0, 0.3]),
+                                 seed=rng.getrandbits(32)))
+                plan.append(dict(op='mine', n=1, ntx=[rng.randint(0, 3)], seed=rng.getrandbits(32),
+                                 confirm=rng.choice([0.0, 0.0, 0.1]), at=round(rng.uniform(0.2, a), 2)))
+                for _ in range(rng.randint(1, 4)):
+                    plan.append(dict(op='mp_evict', k=rng.randrange(300), at=round(rng.uniform(a, b), 2)))
+                plan.append(dict(op='wait', dt=b + rng.choice([6.0, 15.0])))
+            if rng.random() < 0.12:
+                # motif: the daemon is merely slow - one batch of raw transactions takes much longer than several
+                # refresh periods (well inside the HTTP client's 5-minute limit) while nothing else changes: the
+                # refresh that completes afterwards is a synchronised one
+                delay = rng.choice([20.0, 35.0, 50.0, 90.0, 150.0])
+                plan.append(dict(op='mp_add', n=rng.choice([1, 3, 12, 40]), chain=rng.choice([0.0, 0.5]),
+                                 seed=rng.getrandbits(32)))
+                plan.append(dict(op='slow', method='getrawtransaction', delay=delay))
+                plan.append(dict(op='wait', dt=delay + rng.choice([8.0, 20.0])))
             if races:
                 # refreshes (every 5 s) must happen while faults, stalls and triggers are armed: settle switches
                 # them off
@@ -1172,6 +1207,38 @@ class StaleFamily(SubsFamily):
                 ops.append(q)
             rng.shuffle(ops)
             plan.extend(ops)
+            if rng.random() < 0.2:
+                # motif: the same script-hash request over and over (several clients) while a block that touches
+                # the script is indexed and notified and the reads behind those requests are slow: requests that
+                # arrive after the notification overlap reads that began before the flush
+                k['stall_boost'] = ('read_history', rng.choice([0.5, 0.8]), 'RPCSession',
+                                    rng.choice(['release', 'timed']))
+                k['stall_p'] = 0.0
+                sx = rng.randrange(8)
+                tq = round(rng.uniform(0.5, 3.0), 2)
+                for c in range(nclients):
+                    plan.append(dict(op='c_query', c=c, m=rng.choice(['get_history', 'get_history', 'get_balance']),
+                                     s=sx, h=0, pos=0, merkle=False, at=round(max(0.01, tq - rng.uniform(0, 1.5)), 2),
+                                     rep=rng.choice([10, 20, 40]), every=rng.choice([0.1, 0.3, 0.7])))
+                n = rng.randint(1, 2)
+                plan.append(dict(op='mine', n=n, ntx=[rng.randint(3, 9) for _ in range(n)], at=tq,
+                                 seed=rng.getrandbits(32), confirm=rng.choice([0.0, 1.0])))
+                plan.append(dict(op='wait', dt=rng.choice([10.0, 25.0])))
+                plan.append(dict(op='settle'))
+            if rng.random() < 0.2:
+                # motif: answers are cached, then every client leaves; the chain moves while the server has no
+                # session at all; clients come back at quiescence
+                for _ in range(rng.randint(2, 5)):
+                    plan.append(dict(op='c_query', c=rng.randrange(nclients),
+                                     m=rng.choice(['get_history', 'get_history', 'get_balance', 'id_from_pos']),
+                                     s=rng.randrange(13), h=rng.randrange(1000), pos=rng.randrange(4),
+                                     merkle=rng.random() < 0.5, back=rng.choice([0, 0, 1, 2])))
+                plan.append(dict(op='wait', dt=rng.choice([1.0, 3.0])))
+                plan.append(dict(op='c_disconnect_all'))
+                plan.append(dict(op='wait', dt=rng.choice([0.5, 2.0])))
+                plan.extend(self.chain_ops(rng, k, 3.0))
+                plan.append(dict(op='wait', dt=rng.choice([15.0, 30.0, 60.0])))
+                plan.append(dict(op='settle'))
             if rng.random() < 0.35:
                 # motif: fresh blocks (not yet in any cache), a by-height request for one of them that may
                 # be parked on a slow disk, and a fork replacing those blocks right afterwards
